@@ -425,6 +425,16 @@ func c18Check(c *Ctx, p *Prog, m *Model) {
 	}
 	for _, b := range regionBlocks {
 		for _, in := range b.Instrs {
+			// the library forms of "test the prefix, then cut it": they cannot fail for any input
+			if call, isCall := in.(*ssa.Call); isCall {
+				if cal := calleeOf(call); cal != nil && cal.Pkg != nil && cal.Pkg.Pkg.Path() == "strings" {
+					switch cal.Name() {
+					case "CutPrefix", "CutSuffix", "Cut", "TrimPrefix", "TrimSuffix":
+						ns++
+						r.Ok("R18.3", fmt.Sprintf("cut:%s:%s#%d", shortName(b.Parent()), cal.Name(), ns), p.Pos(instrPos(call)), "the prefix is tested and removed by strings.%s, which cannot fail", cal.Name())
+					}
+				}
+			}
 			sl, ok := in.(*ssa.Slice)
 			if !ok || sl.X.Type().String() != "string" {
 				continue
@@ -491,7 +501,7 @@ func c18Check(c *Ctx, p *Prog, m *Model) {
 			if !ok {
 				continue
 			}
-			if cal := calleeOf(call); cal != nil && cal.String() == "strings.HasPrefix" {
+			if cal := calleeOf(call); cal != nil && (cal.String() == "strings.HasPrefix" || cal.String() == "strings.CutPrefix") {
 				if g, ok := globalLoad(call.Common().Args[1]); ok && nm(g) == "homeDir" && isPrivGuard(b) {
 					// the true edge rewrites to "~"+rest
 					home = true
@@ -516,7 +526,7 @@ func c18Check(c *Ctx, p *Prog, m *Model) {
 		var deleters []string
 		for _, fn := range p.RepoFuncs() {
 			for _, gs := range globalStores(fn) {
-				if nm(gs.G) == "knownPathMap" && (gs.Kind == "delete" || gs.Kind == "clear" || (gs.Kind == "store" && !strings.HasPrefix(nm(fn), "init"))) {
+				if nm(gs.G) == "knownPathMap" && (gs.Kind == "delete" || gs.Kind == "clear" || (gs.Kind == "store" && !p.startupOnly(fn))) {
 					deleters = append(deleters, shortName(fn))
 				}
 			}
@@ -529,7 +539,7 @@ func c18Check(c *Ctx, p *Prog, m *Model) {
 	// init seeds homeDir from os.UserHomeDir
 	seeded := false
 	for _, fn := range p.RepoFuncs() {
-		if !strings.HasPrefix(nm(fn), "init") {
+		if !p.startupOnly(fn) {
 			continue
 		}
 		for _, gs := range globalStores(fn) {
@@ -548,7 +558,7 @@ func c18Check(c *Ctx, p *Prog, m *Model) {
 	}
 	r.Check(seeded, "R18.4", "homeDir:init", "-", "homeDir is the user's home directory", "homeDir is not initialised from os.UserHomeDir")
 	for _, fn := range p.RepoFuncs() {
-		if strings.HasPrefix(nm(fn), "init") {
+		if p.startupOnly(fn) {
 			continue
 		}
 		for _, gs := range globalStores(fn) {
